@@ -422,7 +422,7 @@ def run(tier, seed):
         "the allocation raise; (sorting) every list of <= %d tasks over key-field pairs in {0,1,2}^2 (incl. ties) x 9 task rules; every list of workers over (other skill, cost, target skill in {missing,0,1,2}, "
         "main_workplace_id in {None, identical object, equal but distinct string, other}) x 4 rules x target workplace given or not; facilities x 4 rule values; workplaces over capacity/placed/skill x 2 rules: "
         "result is a permutation, ordered by the documented primary key, no exception; (allocation) 3 (thorough 4) tasks with distinct and tied keys x {none, FS, SS link} x {POOL1,POOL2,SOLO} x 9 rules x both "
-        "task_list orders (forward, and the inner run of backward_simulate under the same rule), explored over absence answers up to H with <= D deviations: no worker is newly given to a task while a strictly higher-priority READY/WORKING task it is eligible for could still "
+        "task_list orders, refused middle candidates (fixed IDs / solo), a task targeted by two differently wired teams (forward, and the inner run of backward_simulate under the same rule), explored over absence answers up to H with <= D deviations: no worker is newly given to a task while a strictly higher-priority READY/WORKING task it is eligible for could still "
         "accept it (for a facility-needing higher-priority task of a single-task component: as a pair with a FREE eligible facility of its workplace; "
         "explored on the FAC family with one facility task and one plain task under SPT/LPT/TSLACK with worker and facility absences); non-trivial = inputs with at least two different keys / distinct (low, high, worker) candidate triples" % n,
         "bounds": {"max_list_len": n, "H": H, "D": D, "alloc_models": len(ai)},
